@@ -206,8 +206,19 @@ func checkC20(c C20Case) Result {
 		r.Exclude("library-panic(C01)")
 		return r
 	}
-	_, diags := hclsyntax.ParseConfig([]byte(text), "main.tf", hcl.InitialPos)
+	pf, diags := hclsyntax.ParseConfig([]byte(text), "main.tf", hcl.InitialPos)
 	clean := !diags.HasErrors()
+	// calls the parser itself recognised completely (name, both parentheses), keyed by "(" offset:
+	// in half-typed text these are the calls whose existence does not hinge on error recovery
+	closedInAST := map[int]int{}
+	if body, ok := pf.Body.(*hclsyntax.Body); ok {
+		_ = hclsyntax.VisitAll(body, func(n hclsyntax.Node) hcl.Diagnostics {
+			if fc, ok := n.(*hclsyntax.FunctionCallExpr); ok && fc.CloseParenRange.Start.Byte > fc.OpenParenRange.Start.Byte {
+				closedInAST[fc.OpenParenRange.Start.Byte] = fc.CloseParenRange.Start.Byte
+			}
+			return nil
+		})
+	}
 	// calls as the generator wrote them (restricted to what survives truncation)
 	var anns []CallAnn
 	for _, a := range c.Anns {
@@ -353,6 +364,23 @@ func checkC20(c C20Case) Result {
 				r.Fail("sig:missing-zero-arg", "offset %d in %q: no signature on the call of the known parameterless function %q", off, text, innermostKnown.Name)
 			} else if idx < total || f.VarParam != nil {
 				r.Fail("sig:missing", "offset %d in %q: no signature although the cursor is in argument slot %d of the known call %q", off, text, idx, innermostKnown.Name)
+			}
+		}
+		// ---- completeness in half-typed text: a call that is itself complete (the parser has it with
+		// both parentheses) inside something unfinished still gets its signature
+		if !clean && innermostKnown != nil && !innermostKnown.Empty && innermostKnown.Close >= 0 && closedInAST[innermostKnown.Open] == innermostKnown.Close &&
+			enclosing[0].Open == innermostKnown.Open { // (directly in its argument list, not inside an unknown or broken call nested in it)
+			f := c.Funcs[innermostKnown.Name]
+			total := len(paramNames(f))
+			idx := 0
+			for _, cm := range innermostKnown.Commas {
+				if cm < off {
+					idx++
+				}
+			}
+			if total > 0 && (idx < total || f.VarParam != nil) {
+				r.Class("complete-call-in-unfinished-text")
+				r.Fail("sig:missing-in-unfinished-text", "offset %d in %q: no signature although the cursor is in argument slot %d of the complete known call %q (only the text around it is unfinished)", off, text, idx, innermostKnown.Name)
 			}
 		}
 		if len(r.Failures) > 5 {
